@@ -81,6 +81,10 @@ EXPLANATION += (
     ' Round 9: an integer type chosen inside a worker is sized from a bound of the kind of what it stores, values or counts (R-CAP/bound-kind).'
 )
 
+EXPLANATION += (
+    ' Round 10: the taint engine labels a store into a table that outlives a loop with labelled visiting order when the position is not given by the loop element (order-dependent overwrite); writes through an HDF5 handle opened for writing are sinks.'
+)
+
 RULE_TEXT = (
     "one obligation per (sink site, set of source labels) finding, per "
     "benign source used, per RNG construction, per merge loop, per worker "
